@@ -81,7 +81,27 @@ theorem math_derivs (u : UnFn) {n : Nat} (x : Fin (n + 1) → ℝ) (h : u.dom (x
     ∃ d, HasDerivAt u.fn d (x 0) ∧ toDual (u.impl x) = Dual.chain (u.fn (x 0)) d (toDual x) :=
   unary_exact u x h
 
-/-- Chain rule for ALL expression trees over + − · / unary minus and the unary Math.hpp functions,
+/-- The binary functions of Math.hpp — `pow(x, y)` (positive base), `atan2(x, y)` (y ≠ 0 and off the
+branch cut), `min`, `max` (no tie): the translated value is the function and the translated
+derivative expressions are its two partial derivatives, in chain-rule form: for all differentiable
+u, v through the point, `t ↦ f (u t) (v t)` has derivative `d1·u' + d2·v'`. -/
+theorem binary_math_derivs (f : BinFn) {n : Nat} (x y : Fin (n + 1) → ℝ) (h : f.dom (x 0) (y 0)) :
+    ∃ d1 d2, HasGrad2 f.fn d1 d2 (x 0) (y 0) ∧
+      toDual (f.impl x y) = Dual.chain2 (f.fn (x 0) (y 0)) d1 d2 (toDual x) (toDual y) :=
+  binary_exact f x y h
+
+/-- Mixed scalar/Evaluation forms of the Math.hpp functions equal the all-Evaluation form on the
+lifted constant: `pow(x, c)`, `pow(c, x)` (c > 0), `atan2(x, c)`, `atan2(c, x)`, `min/max(c, x)`,
+and `min/max(x, c)` away from the tie x = c (at a tie the mixed form returns x, the lifted one c). -/
+theorem math_mixed_eq_lifted {n : Nat} (a : Fin (n + 1) → ℝ) (c : ℝ) :
+    M.pows RF a c = M.pow RF a (L.const c) ∧ (0 < c → M.spow RF c a = M.pow RF (L.const c) a) ∧
+    M.atan2s RF a c = M.atan2 RF a (L.const c) ∧ M.satan2 RF c a = M.atan2 RF (L.const c) a ∧
+    M.smin RF c a = M.min RF (L.const c) a ∧ M.smax RF c a = M.max RF (L.const c) a ∧
+    (a 0 ≠ c → M.smin RF c a = M.min RF a (L.const c)) ∧ (a 0 ≠ c → M.smax RF c a = M.max RF a (L.const c)) :=
+  ⟨pows_eq_lifted a c, fun hc => spow_eq_lifted c hc a, atan2s_eq_lifted a c, satan2_eq_lifted c a,
+   smin_eq_lifted c a, smax_eq_lifted c a, mins_eq_lifted a c, maxs_eq_lifted a c⟩
+
+/-- Chain rule for ALL expression trees over + − · / unary minus, the unary Math.hpp functions and pow, atan2, min, max,
 at every point of the tree's domain, for every exact operator set (all variants, all sizes):
 slot 0 of the computed Evaluation is the value of the expression and slot j+1 is its partial
 derivative with respect to variable j. -/
@@ -93,12 +113,19 @@ theorem chain_rule_all_trees {n : Nat} {ops : ADOps ℝ n} (hx : Exact ops) (e :
 
 /-! Non-vacuity. -/
 
-/-- sin(x₀·x₁) / exp(x₁) + sqrt(x₀) at (1, 1): every operation is inside its domain. -/
+/-- sin(x₀·x₁) / exp(x₁) + sqrt(x₀) + x₀ ^ x₁ + atan2(x₀, x₁) at (1, 1): every operation is inside
+its domain. -/
 noncomputable def sample : Expr 2 :=
-  .add (.div (.un .sin (.mul (.var 0) (.var 1))) (.un .exp (.var 1))) (.un .sqrt (.var 0))
+  .add (.add (.add (.div (.un .sin (.mul (.var 0) (.var 1))) (.un .exp (.var 1))) (.un .sqrt (.var 0)))
+    (.bin .pow (.var 0) (.var 1))) (.bin .atan2 (.var 0) (.var 1))
 
 example : sample.Defined (fun _ => 1) := by
-  simp [sample, Expr.Defined, UnFn.dom, Expr.eval, UnFn.fn, Real.exp_ne_zero]
+  simp [sample, Expr.Defined, UnFn.dom, BinFn.dom, Expr.eval, UnFn.fn, Real.exp_ne_zero]
+
+/-- hypotheses of `binary_math_derivs` / `math_mixed_eq_lifted` are satisfiable -/
+example : BinFn.atan2.dom ((fun _ => -2 : Fin 3 → ℝ) 0) ((fun _ => -1 : Fin 3 → ℝ) 0) := by
+  simp [BinFn.dom]
+example : ((fun _ => 2 : Fin 3 → ℝ) 0) ≠ (1 : ℝ) := by norm_num
 
 example : Exact (U9.ops : ADOps ℝ 9) := unrolled_exact.2.2.2.2.2.2.2.2.1
 
